@@ -268,3 +268,7 @@ package db
 //@   ensures err == nil ==> id == res(String, 1, 0) && callarg(String, 1, 0) == res(NewSHA256CidV1, 1, 0)
 //@   modifies failed
 //@   tags C13
+//@ func (*collection).createIndex
+//@   modifies colSaves
+//@ func (*collection).dropIndex
+//@   modifies colSaves
